@@ -217,18 +217,38 @@ func carryLen(segs []carrySeg, id, url, pin string) int {
 	return n
 }
 
-// carryFirstID: what stands after the first "/i/" of the body.
-func carryFirstID(body []byte) string {
-	i := bytes.Index(body, []byte("/i/"))
-	if i < 0 {
-		return ""
+// carryFirstID: what stands after the first "/i/" of the body that is not a
+// part of the certificate's fingerprint (base64 has '/' and 'i': about one
+// certificate in a hundred has "/i/" in its pin, and the pin comes first).
+func carryFirstID(body []byte, pin string) string {
+	off := 0
+	for {
+		i := bytes.Index(body[off:], []byte("/i/"))
+		if i < 0 {
+			return ""
+		}
+		i += off
+		if carryInPin(body, i, pin) {
+			off = i + 1
+			continue
+		}
+		b := body[i+3:]
+		n := 0
+		for n < len(b) && n < 200 && b[n] != ' ' && b[n] != '\n' && b[n] != '\t' && b[n] != '/' {
+			n++
+		}
+		return string(b[:n])
 	}
-	b := body[i+3:]
-	n := 0
-	for n < len(b) && n < 200 && b[n] != ' ' && b[n] != '\n' && b[n] != '\t' && b[n] != '/' {
-		n++
+}
+
+// carryInPin: the three bytes at i belong to an occurrence of the pin.
+func carryInPin(body []byte, i int, pin string) bool {
+	for k := 0; k+3 <= len(pin); k++ {
+		if s := i - k; s >= 0 && s+len(pin) <= len(body) && pin[k:k+3] == string(body[i:i+3]) && string(body[s:s+len(pin)]) == pin {
+			return true
+		}
 	}
-	return string(b[:n])
+	return false
 }
 
 // carryRender is the reference rendering: the three fields substituted into
@@ -546,7 +566,7 @@ func (q *carrySeq) polite(kc **hk.Conn, t carryTmpl, after string, afterMidWrite
 	if len(conn.Chain) > 0 {
 		pin = hk.Pin(conn.Chain[0])
 	}
-	id := carryFirstID(body)
+	id := carryFirstID(body, pin)
 	r.Distinct(fmt.Sprintf("carry|%s|%s|%s|%s|after:%s|%s|%s", q.class.name, q.mode, q.procs, how, after, framing, raw[:12]))
 	if id != "" && carryEqual(body, t.segs, id, url, pin) {
 		r.Count("carry_scripts_matched", 1)
@@ -583,7 +603,11 @@ func (q *carrySeq) diagnose(body []byte, t carryTmpl, id, url, pin string, wit m
 	want := carryRender(t.text, id, url, pin)
 	var ids []string
 	cnt := map[string]int{}
-	for _, m := range carryAnyIDRe.FindAllSubmatch(body, -1) {
+	scan := body
+	if pin != "" { // the pin is base64 and may itself hold "/i/" or "/o/"
+		scan = bytes.ReplaceAll(body, []byte(pin), []byte("PIN"))
+	}
+	for _, m := range carryAnyIDRe.FindAllSubmatch(scan, -1) {
 		s := string(m[1])
 		if cnt[s] == 0 && len(ids) < 8 {
 			ids = append(ids, s)
